@@ -275,7 +275,7 @@ impl Prop for C20 {
     fn work(&self, tier: Tier) -> Work {
         match tier {
             Tier::Quick => Work { cases_per_worker: 2000, workers: 8 },
-            Tier::Thorough => Work { cases_per_worker: 100_000, workers: 16 },
+            Tier::Thorough => Work { cases_per_worker: 200000, workers: 16 },
         }
     }
     fn strategy(&self, _tier: Tier) -> BoxedStrategy<Sc20> {
